@@ -61,6 +61,7 @@ def canon(svg):
 
 class Check(PropertyCheck):
     id = "C17"
+    thorough_mult = 3
     lean_modules = ["Svgbob.Properties.C17"]
     assumptions = [
         "model of str::lines / StringBuffer / CellBuffer::from hand-written, tied by correspondence",
